@@ -12,6 +12,12 @@ trap 'rm -rf "$T"' EXIT
 ./bin/vinstr -src /repo -out "$T" -shim "$PWD/h/shim" >bin/vinstr-report.json
 (cd h && go build -tags verif -overlay "$T/overlay.json" -o ../bin/vcheck-i ./cmd/vcheck)
 (cd h && CGO_ENABLED=1 go build -race -o ../bin/racepass ./cmd/racepass)
-# self-tests of the machinery itself (PEG interpreter vs peg's own rendering, defects replay)
-(cd h && go test ./pegi ./defects >../bin/selftest.log 2>&1) || { cat bin/selftest.log; echo "setup: self-test failed"; exit 1; }
+# self-tests of the machinery itself (PEG interpreter vs peg's own rendering of the rules, reference
+# model vs the repository's pinned expectations, replay of the repaired defects); informational:
+# they read /repo, so they are reported but do not make setup fail
+if (cd h && go test ./pegi ./suite ./defects >../bin/selftest.log 2>&1); then
+  echo "self-tests ok"
+else
+  echo "WARNING: self-tests reported problems (bin/selftest.log):"; tail -5 bin/selftest.log
+fi
 echo "setup ok: $(./bin/vcheck-i list | tr '\n' ' ')"
